@@ -122,6 +122,18 @@ CHECKS.update({
     tech='TLA+ declarative rewrite enumerated by TLC; behaviours replayed on real objects'),
 })
 
+CHECKS.update({
+ 'C13': dict(engine='modules-replay', cat='model_checking', ref='DESIGN.md §7 C13',
+    text='Modules.tla flattens a chain of modules into one PegSem grammar (late binding, super = the definition the '
+         'writing module inherits, ignore sets united); TLC (MC_C13) enumerates chains of 2-3 modules with every rule '
+         'inherited / overridden / overridden with super / new, ignore in base and/or derived, checks FrameLaw and '
+         'computes every entry x text through every module; the harness replays creation/use histories (each module used '
+         'before and after its descendants exist, the base re-created under the same name and extended again)',
+    note='trusted: Modules!Flat as the stated meaning; inherited entry-point objects (B.R.parse with R defined in an '
+         'ancestor) and derived-only ignore are observed, not judged; bound: chains <= 3, inputs <= 3-4',
+    tech='TLA+ module-flattening semantics enumerated by TLC; creation/use histories replayed into the implementation'),
+})
+
 PENDING = {}
 
 
@@ -159,6 +171,8 @@ def main():
             {'name': OBJ, 'path': 'harness/objcheck.py', 'serves_properties': ['C14', 'C15', 'C16'],
              'kind_free_text': 'spec/Objs.tla (values with identity) and spec/Walk.tla (explicit-stack machines) enumerated '
                                'and checked by TLC; trees and expected sequences replayed on real parsed objects'},
+            {'name': 'modules-replay', 'path': 'harness/checks/c13.py', 'serves_properties': ['C13'],
+             'kind_free_text': 'spec/Modules.tla flattens module chains into PegSem grammars; histories replayed'},
             {'name': 'report-replay', 'path': 'harness/checks/c09.py', 'serves_properties': ['C09'],
              'kind_free_text': 'spec/ExcerptVM.tla + spec/Report.tla model-checked; every state replayed as a real error'},
         ] + extra.get('engines', []),
